@@ -6,7 +6,8 @@ retained (every Terminal row of the k-mer step table — including `neighbour ab
 untouched extensions, and filter_kmers reaches no pruning function); the re-compression driver prunes, builds, finishes
 and prunes again in that order for every censoring scenario, with the complete graph-route step table; pieces and their
 boundary extensions agree ((start, len) on the same read; flank tables); the shard score is a permutation look-up,
-strand-symmetric in reverse-complement mode; the shard id is the rank of the canonical minimizer."""
+strand-symmetric in reverse-complement mode; the shard id is the rank of the canonical minimizer.
+Added later: scanner tables, index-builder tables, both chain tables, filter_kmers tables, DnaString::blank."""
 from .. import dt_filter, dt_graph, dt_tables, dt_compress, dt_msp, lemmas
 from . import common
 
